@@ -105,6 +105,23 @@ Theorem c23_ingredient_current :
          exists tr lg, run (cb_false_at k) (ingredient_import current_flags false ca_jpg) 0 = (tr, lg, ROk) /\ length tr = k.
 Proof. exact (ingredient_status current_flags). Qed.
 
+(* With the hash-binding arms and the ingredient status arm passing the cancellation on (both true of the source
+   since fixes be69ddecd / d3943bcaa; generated facts), every read, sidecar/fragment read, ingredient import, sign
+   and embeddable sign that issues no OCSP fetch (any ingredient tree and hashing shape) ends with the cancellation
+   error whenever cancellation was requested at a callback that was made — whatever the still-open OCSP site
+   (F-CANCEL-OCSP) does, because it is never entered. *)
+Theorem c23_current_without_ocsp_fetch :
+  if hash_arms_pass current_flags && ingredient_status_pass current_flags
+  then forall o,
+    (exists remote v, vshape_ocsp_free v = true /\
+        (o = read_stream current_flags remote v \/ o = read_sidecar current_flags v \/ o = ingredient_import current_flags remote v)) \/
+    (exists s, opt_free (s_verify s) = true /\ o = sign_stream current_flags s) \/
+    (exists h v, opt_free v = true /\ o = sign_embeddable current_flags h v) ->
+    forall e tr lg r, run e o 0 = (tr, lg, r) ->
+      Exists (fun t => requested e (t_idx t) = true) tr -> r = RCancel
+  else True.
+Proof. exact (no_ocsp_status current_flags). Qed.
+
 (* step / total: a loop of n checkpoints numbered start+1 .. start+n against a total that is 0 or at least
    start+n yields positive steps, none above a non-zero total, strictly increasing *)
 Theorem c23_steps_loop :
